@@ -1,5 +1,5 @@
 (** C05 — proofs, part 7: the specification-side reachability (Spec.closure) against the model's search. *)
-From V Require Import Base.Util Gql.Ast C05.Model C05.Spec C05.Proofs C05.Proofs2 C05.Proofs3 C05.Proofs6.
+From V Require Import Base.Util Gql.Ast C05.Model C05.Spec C05.Proofs C05.Proofs2 C05.Proofs3 C05.Proofs6 C05.Proofs13.
 
 Section NamePaths.
   Variable nested : bool.
@@ -48,11 +48,11 @@ End NamePaths.
 (** for scalars, enums and input objects the two readings of "the directives on a type" coincide *)
 Lemma dirs_on_type_input t b :
   is_input_kind (kind_of_typedef t) = true -> In b (dirs_on_type t) ->
-  exists dir, In dir (directives_in_type t) /\ iname (dir_name dir) = b.
+  exists dir, In dir (shallow_dirs t) /\ iname (dir_name dir) = b.
 Proof.
   unfold dirs_on_type. rewrite in_flat_map. intros Hk [la [Hla Hb]]. apply in_map_iff in Hb as [dir [Hn Hdir]].
   exists dir. split; [|exact Hn].
-  destruct t; cbn [kind_of_typedef is_input_kind] in Hk; try discriminate; cbn [type_apps directives_in_type] in *.
+  destruct t; cbn [kind_of_typedef is_input_kind] in Hk; try discriminate; cbn [type_apps shallow_dirs] in *.
   - destruct Hla as [<-|[]]. exact Hdir.
   - destruct Hla as [<-|Hla]; [apply in_or_app; left; exact Hdir|]. apply in_map_iff in Hla as [v [<- Hv]].
     apply in_or_app. right. apply in_flat_map. exists v. split; [exact Hv | exact Hdir].
@@ -60,7 +60,34 @@ Proof.
     apply in_or_app. right. apply in_flat_map. exists v. split; [exact Hv | exact Hdir].
 Qed.
 
-Section ShallowSound.
+(** ** the specification-side closure over field types: everything in it is reachable by names *)
+Section TypeNames.
+  Variable doc : tsdoc.
+  Definition tnedge (a b : str) : Prop := In b (field_type_names doc a).
+  Inductive tnpath : str -> str -> Prop :=
+  | tnpath0 a : tnpath a a
+  | tnpathS a b c : tnedge a b -> tnpath b c -> tnpath a c.
+  Lemma tnpath_snoc a b c : tnpath a b -> tnedge b c -> tnpath a c.
+  Proof. induction 1 as [a|a b' c' He Hp IH]; intros Hc; [econstructor; [exact Hc | constructor] | econstructor; [exact He | apply IH; exact Hc]]. Qed.
+  Lemma tnpath_trans a b c : tnpath a b -> tnpath b c -> tnpath a c.
+  Proof. induction 1 as [a|a b' c' He Hp IH]; intros Hc; [exact Hc | econstructor; [exact He | apply IH; exact Hc]]. Qed.
+
+  Lemma tnpath_start_defined a x : tnpath a x -> (exists tx, lookup_t doc x = Some tx) -> exists ta, lookup_t doc a = Some ta.
+  Proof.
+    intros Hp Hx. destruct Hp as [a|a b c He _]; [exact Hx|].
+    unfold tnedge, field_type_names in He. destruct (lookup_t doc a) as [ta|]; [exists ta; reflexivity | contradiction].
+  Qed.
+
+  Lemma types_closure_sound fuel : forall seen x, In x (types_closure doc fuel seen) -> exists a, In a seen /\ tnpath a x.
+  Proof.
+    induction fuel as [|fuel IH]; intros seen x Hx; cbn [types_closure] in Hx.
+    - exists x. split; [exact Hx | constructor].
+    - apply IH in Hx as [a [Ha Hp]]. apply In_add_new in Ha as [Ha|Ha]; [exists a; split; assumption|].
+      apply in_flat_map in Ha as [a0 [Ha0 He]]. exists a0. split; [exact Ha0 | econstructor; [exact He | exact Hp]].
+  Qed.
+End TypeNames.
+
+Section NestedSound.
   Variable doc : tsdoc.
   Hypothesis Hchk : check_doc doc = [].
   Hypothesis Huniq : unique_names doc = true.
@@ -68,30 +95,67 @@ Section ShallowSound.
   Lemma canon_of d : In d (directives_of doc) -> canon doc d.
   Proof. intros Hd. unfold canon, dname. rewrite (last_directive_lookup doc _ Huniq). apply lookup_d_self; assumption. Qed.
 
-  (** a shallow name edge between defined directives is an edge of the model's search *)
+  (** a path of names through field types is a path of definitions *)
+  Lemma tnpath_treach a x : tnpath doc a x -> forall ta tx, lookup_t doc a = Some ta -> lookup_t doc x = Some tx -> treach doc ta tx.
+  Proof.
+    induction 1 as [a|a b c He Hp IH]; intros ta tx La Lx.
+    - rewrite La in Lx. injection Lx as <-. constructor.
+    - unfold tnedge, field_type_names in He. rewrite La in He. destruct ta; try contradiction.
+      apply in_map_iff in He as [fd [Hb Hfd]].
+      assert (Lb : exists tb, lookup_t doc b = Some tb) by (apply (tnpath_start_defined doc b c Hp); exists tx; exact Lx).
+      destruct Lb as [tb Lb]. eapply treachS; [|apply (IH tb tx Lb Lx)].
+      cbn [tedge]. exists fd. split; [exact Hfd|]. rewrite (last_type_lookup doc _ Huniq). fold (base_name (iv_type fd)). rewrite Hb. exact Lb.
+  Qed.
+
+  (** types reached through input-object fields of an accepted document are input types *)
+  Lemma treach_input_kind ta tx : treach doc ta tx -> In ta (types_of doc) ->
+    is_input_kind (kind_of_typedef ta) = true -> is_input_kind (kind_of_typedef tx) = true.
+  Proof.
+    induction 1 as [a|a b c He Hr IH]; intros Hin Hk; [exact Hk|].
+    destruct a; cbn [tedge] in He; try contradiction. destruct He as [fd [Hfd L]].
+    pose proof (last_type_In _ _ _ L) as [Hbin _]. apply IH; [exact Hbin|].
+    assert (Hl : In fields (all_input_field_lists doc)).
+    { unfold all_input_field_lists. apply in_flat_map. eexists. split; [exact Hin | left; reflexivity]. }
+    destruct (input_field_facts doc Hchk fields fd Hl Hfd) as [_ [_ Hi]].
+    rewrite is_input_named_kind in Hi. unfold base_name in Hi. rewrite <- (last_type_lookup doc _ Huniq), L in Hi.
+    cbn [option_map] in Hi. injection Hi as Hi. exact Hi.
+  Qed.
+
+  (** a name edge of the specification (nested reading) between defined directives is an edge of the model's search *)
   Lemma nedge_edge x b y :
-    In x (directives_of doc) -> In b (dir_succ false doc x) -> lookup_d doc b = Some y -> edge doc x y.
+    In x (directives_of doc) -> In b (dir_succ true doc x) -> lookup_d doc b = Some y -> edge doc x y.
   Proof.
     intros Hx Hb Hy. unfold edge, next_of, dir_succ in *. rewrite opt_list_args_of. fold (args_of (dd_args x)).
     apply in_flat_map in Hb as [a [Ha Hb]]. apply in_flat_map. exists a. split; [exact Ha|].
     assert (Hdir : exists dir, In dir (iv_dirs a ++ match last_type doc (iname (ty_unwrapped (iv_type a))) with
-                                                   | Some td => directives_in_type td | None => [] end)
+                                                   | Some td => directives_in_type doc td | None => [] end)
                                /\ iname (dir_name dir) = b).
     { apply in_app_or in Hb as [Hb|Hb].
       - apply in_map_iff in Hb as [dir [Hn Hdir]]. exists dir. split; [apply in_or_app; left; exact Hdir | exact Hn].
-      - cbn [flat_map] in Hb. rewrite app_nil_r in Hb. rewrite (last_type_lookup doc _ Huniq). fold (base_name (iv_type a)).
-        destruct (lookup_t doc (base_name (iv_type a))) as [t|] eqn:L; [|contradiction].
-        assert (Hin : is_input_named doc (base_name (iv_type a)) = Some true).
-        { apply (arg_facts doc Hchk (args_of (dd_args x)) a); [|exact Ha]. unfold all_arg_lists. apply in_or_app. right.
-          apply in_map_iff. exists x. split; [reflexivity | exact Hx]. }
-        rewrite is_input_named_kind, L in Hin. cbn [option_map] in Hin. injection Hin as Hin.
-        destruct (dirs_on_type_input t b Hin Hb) as [dir [Hd Hn]]. exists dir. split; [apply in_or_app; right; exact Hd | exact Hn]. }
+      - apply in_flat_map in Hb as [n [Hn Hb]].
+        destruct (lookup_t doc n) as [t|] eqn:Ln; [|contradiction].
+        unfold reach_types in Hn. apply types_closure_sound in Hn as [a0 [[<-|[]] Hp]].
+        (* the argument's own type is defined: it is the start of a path that ends in a defined type *)
+        assert (L0 : exists t0, lookup_t doc (base_name (iv_type a)) = Some t0) by (apply (tnpath_start_defined doc _ n Hp); exists t; exact Ln).
+        destruct L0 as [t0 L0].
+        pose proof (tnpath_treach _ _ Hp t0 t L0 Ln) as Hr.
+        assert (Hin0 : is_input_kind (kind_of_typedef t0) = true).
+        { assert (Hi : is_input_named doc (base_name (iv_type a)) = Some true).
+          { apply (arg_facts doc Hchk (args_of (dd_args x)) a); [|exact Ha]. unfold all_arg_lists. apply in_or_app. right.
+            apply in_map_iff. exists x. split; [reflexivity | exact Hx]. }
+          rewrite is_input_named_kind, L0 in Hi. cbn [option_map] in Hi. injection Hi as Hi. exact Hi. }
+        pose proof (treach_input_kind _ _ Hr (proj1 (lookup_t_In _ _ _ L0)) Hin0) as Hint.
+        destruct (dirs_on_type_input t b Hint Hb) as [dir [Hd Hnm]]. exists dir. split; [|exact Hnm].
+        apply in_or_app. right. rewrite (last_type_lookup doc _ Huniq). fold (base_name (iv_type a)). rewrite L0.
+        apply (dit_complete doc t0 t dir); [|exact Hr|exact Hd].
+        unfold tcanon. rewrite (last_type_lookup doc _ Huniq). apply lookup_t_In in L0 as [L0in _].
+        apply (lookup_t_self doc t0 Huniq L0in). }
     destruct Hdir as [dir [Hdir Hn]]. apply in_flat_map. exists dir. split; [exact Hdir|].
     rewrite Hn, (last_directive_lookup doc _ Huniq), Hy. left; reflexivity.
   Qed.
 
   Lemma npath_reach n : forall a b x,
-    npath false doc n a b -> lookup_d doc a = Some x -> (exists yb, lookup_d doc b = Some yb) ->
+    npath true doc n a b -> lookup_d doc a = Some x -> (exists yb, lookup_d doc b = Some yb) ->
     exists y, reach doc n x y /\ dname y = b.
   Proof.
     induction n as [|n IH]; intros a b x Hp Hx Hb; inversion Hp as [|? ? a1 ? He Hp']; subst.
@@ -104,13 +168,15 @@ Section ShallowSound.
       destruct (IH a1 b y1 Hp' Hy1 Hb) as [y [Hr Hn]]. exists y. split; [econstructor; eassumption | exact Hn].
   Qed.
 
-  Lemma sound_directive_recursive_shallow : ok_directive_recursive_shallow doc = true.
+  (** no diagnostic => no directive definition references itself, directly or through any chain of directives and
+      (nested) input types: the specification's reading *)
+  Lemma sound_directive_recursive : ok_directive_recursive doc = true.
   Proof.
-    unfold ok_directive_recursive_shallow. apply forallb_forall. intros d Hd. apply negb_true_iff. apply not_true_iff_false. intros Hr.
-    destruct (reaches_self_path false doc d Hr Hd Huniq) as [n Hp].
+    unfold ok_directive_recursive, ok_directive_recursive_gen. apply forallb_forall. intros d Hd. apply negb_true_iff. apply not_true_iff_false. intros Hr.
+    destruct (reaches_self_path true doc d Hr Hd Huniq) as [n Hp].
     assert (Hl : lookup_d doc (iname (dd_name d)) = Some d) by (apply lookup_d_self; assumption).
     destruct (npath_reach (S n) _ _ d Hp Hl (ex_intro _ d Hl)) as [y [Hreach Hy]].
     apply (recursion_search_complete doc d (canon_of d Hd)) with (n := n) (y := y); [|exact Hreach|exact Hy].
     pose proof (check_nil_directive doc d Hchk Hd) as H. unfold check_directive_def in H. split_nil H. assumption.
   Qed.
-End ShallowSound.
+End NestedSound.
